@@ -183,6 +183,8 @@ func (e *Engine) contractFor(fn *ssa.Function) *FuncContract {
 	return e.contracts.Funcs[pkg+"::"+key]
 }
 
+func (e *Engine) ensureBuiltPkg(path string) {}
+
 // ensureBuilt builds the SSA bodies of fn's package if that has not happened yet.
 func (e *Engine) ensureBuilt(fn *ssa.Function) {
 	o := fn
